@@ -107,8 +107,8 @@ IMPORTS = ('From Coq Require Import List ZArith NArith String.\nFrom Xr Require 
 class C02(PropertyCheck):
     id = 'C02'
     imports = IMPORTS
-    technique = 'reference big-step semantics in Coq (lexical environments, strict left-to-right, documented short circuits) with proved properties; typed-program differential correspondence'
-    trusted = ['the typed program generator (Python) emits the same AST as xray text and as a Coq term', 'the pest PEG grammar (not modelled)']
+    technique = 'reference big-step semantics in Coq (lexical environments, strict left-to-right, documented short circuits) with proved properties; operator table extracted from parser.rs / xray.pest / the book and proved equal to the documented table; Coq proof that the precedence climber groups every operator sequence by that table; typed-program differential correspondence'
+    trusted = ['the typed program generator (Python) emits the same AST as xray text and as a Coq term', 'the pest PEG grammar other than the operator table (not modelled); translator/optable.py (regular expressions over parser.rs, xray.pest, functions.md); Lang/Prec.v is a model of pest::prec_climber (library code), tied by the flat / parenthesised / nested-call comparison']
     assumptions = ['programs of the core fragment only; builtins dispatched on runtime tags in the model (static overload resolution is C05)']
     rule = ('typed random programs: 2-10 top-level declarations + 8 observed expressions of depth <= 4, literals up to 10^30, operators spelled as '
             'operator/function/method at random, display calls inside arguments, defaults, nested functions and lambdas; distinct = distinct program texts; '
@@ -116,6 +116,22 @@ class C02(PropertyCheck):
 
     def generate(self, rng, tier):
         return []
+
+    def pre_build(self):
+        # the operator table (parser.rs CLIMBER, xray.pest tokens, book list) is re-extracted into coq/Extracted/Ops.v
+        from lib import extract
+        try:
+            self._ops = extract.run_all()['optable']
+            self._err = None
+        except Exception as e:        # fails closed
+            self._ops, self._err = {}, str(e)
+
+    def extracted_obligations(self):
+        if self._err:
+            return [('optable_translator', False, f'translator failed: {self._err}')]
+        o = self._ops
+        return [('optable_translator_found_table', o.get('levels', 0) >= 1 and o.get('operators', 0) >= 1 and o.get('unary', 0) >= 1,
+                 f"{o.get('levels')} levels, {o.get('operators')} binary operators, {o.get('unary')} unary operators extracted")]
 
     def extra_checks(self, ctx):
         rng, tier, workdir = ctx['rng'], ctx['tier'], ctx['workdir']
@@ -141,7 +157,7 @@ class C02(PropertyCheck):
                     progs.append(d_.xr())
                     k_ += 1
         # precedence: flat operator expressions without parentheses vs fully parenthesised according to the table
-        prec_jobs, prec_expect = self.precedence_cases(rng, 40 if tier == 'quick' else 400)
+        prec_jobs, prec_expect = self.precedence_cases(rng, 80 if tier == 'quick' else 600, workdir)
         res = {}
         for prof, binary in ctx['binaries']:
             res[prof] = core.run_harness(binary, jobs + prec_jobs, os.path.join(workdir, 'h_' + prof), timeout=300)
@@ -185,10 +201,17 @@ class C02(PropertyCheck):
                 if r is None or r.get('compile') != 'ok':
                     violations.append({'what': 'operator expression without parentheses does not compile', 'case': {'src': job['src']}, 'impl': r and r.get('compile')})
                     continue
-                a, b = r['calls']
+                a, b, c = r['calls']
+                meta = self._prec_meta[job['id']]
                 if a != b or a[:2] in ('P:',):
                     violations.append({'what': 'operator precedence / associativity differs from the documented table (flat spelling vs explicit parentheses)',
                                        'case': {'src': job['src']}, 'impl': a, 'model': b})
+                elif meta['model_group'] != want:
+                    violations.append({'what': 'the precedence climber run with the table extracted from the parser groups a sequence differently from the documented table',
+                                       'case': {'src': job['src'], 'flat': meta['flat']}, 'impl': meta['model_group'], 'model': want})
+                elif a != c:
+                    violations.append({'what': 'an operator expression differs from the nested calls of the functions its operators alias (grouping by the proved climber model)',
+                                       'case': {'src': job['src']}, 'impl': a, 'model': c})
                 else:
                     distinct.add(job['src'])
         if skipped > n_eval // 3:
@@ -197,45 +220,85 @@ class C02(PropertyCheck):
                            'precedence_cases': len(prec_jobs)}
         return violations
 
-    # documented levels, loosest first (book: lang/operators; parser.rs CLIMBER); ** is right associative
-    LEVELS = [['&&', '||'], ['<', '>', '==', '!=', '<=', '>='], ['|', '&', '^'], ['+', '-'], ['*', '%'], ['**']]
+    # documented levels, loosest first (book: lang/functions.md "Operators"; parser.rs CLIMBER); ** is right associative.
+    # The SAME table is coq/Lang/PrecInst.v model_levels, which Props/C02.v proves equal to the table extracted from the parser.
+    LEVELS = [['&&', '||'], ['<', '>', '==', '!=', '<=', '>='], ['|', '&', '^'], ['+', '-'], ['*', '/', '%'], ['**']]
+    CMP = ['<', '>', '==', '!=', '<=', '>=']
 
-    def precedence_cases(self, rng, n):
-        jobs, expect = [], []
+    def precedence_cases(self, rng, n, workdir=None):
+        """three spellings of one operator sequence: (a) flat, no parentheses; (b) fully parenthesised by the DOCUMENTED table
+        (python); (c) nested calls of the aliased functions as the Coq model of the precedence climber, run with the table
+        EXTRACTED from the parser, groups the sequence.  All three must give one value."""
+        jobs, expect, seqs = [], [], []
         lvl = {op: i for i, ops in enumerate(self.LEVELS) for op in ops}
-        arith = ['+', '-', '*', '%', '**', '|', '&', '^']
-        for i in range(n):
-            k = rng.randint(2, 5)
-            nums = [rng.choice([1, 2, 3, 5, 7, 4, 6]) for _ in range(k + 1)]
+        arith = ['+', '-', '*', '%', '**', '|', '&', '^', '+', '*', '-']
+
+        def arith_seq(k):
+            nums = [str(rng.choice([1, 2, 3, 5, 7, 4, 6])) for _ in range(k + 1)]
             ops = [rng.choice(arith) for _ in range(k)]
-            if rng.random() < 0.4:
-                # one comparison / boolean layer on top
-                pos = rng.randrange(k)
-                ops[pos] = rng.choice(['<', '>', '==', '!=', '<=', '>='])
-            # avoid huge powers and modulo by zero
             for j, o in enumerate(ops):
                 if o == '**':
-                    nums[j + 1] = rng.choice([1, 2, 3])
-            flat = ' '.join(str(nums[0:1][0]) if j == 0 else f'{ops[j - 1]} {nums[j]}' for j in range(k + 1))
+                    nums[j + 1] = str(rng.choice([1, 2, 3]))
+            return nums, ops
+        for i in range(n):
+            fam = rng.random()
+            if fam < 0.45:
+                atoms, ops = arith_seq(rng.randint(2, 6))
+                if rng.random() < 0.4:
+                    ops[rng.randrange(len(ops))] = rng.choice(self.CMP)
+            elif fam < 0.55:
+                # true division mixed in (float results; a zero divisor is an error value on every spelling)
+                atoms, ops = arith_seq(rng.randint(2, 4))
+                ops = [rng.choice(['/', '*', '+', '-', '/']) for _ in ops]
+                atoms = [a + '.0' for a in atoms]
+            else:
+                # boolean chain: terms joined by && / || (one level, left associative); a term is a literal or a comparison
+                atoms, ops = [], []
+                for t in range(rng.randint(2, 4)):
+                    if t:
+                        ops.append(rng.choice(['&&', '||']))
+                    if rng.random() < 0.5:
+                        atoms.append(rng.choice(['true', 'false']))
+                    else:
+                        l_a, l_o = arith_seq(rng.randint(0, 2))
+                        r_a, r_o = arith_seq(rng.randint(0, 2))
+                        atoms += l_a + r_a
+                        ops += l_o + [rng.choice(self.CMP)] + r_o
+            if sum(1 for o in ops if o in self.CMP) > 1 and not any(o in ('&&', '||') for o in ops):
+                continue
+            k = len(ops)
+            flat = ' '.join(atoms[0] if j == 0 else f'{ops[j - 1]} {atoms[j]}' for j in range(k + 1))
 
             def paren(lo, hi):
                 """fully parenthesised text of operands lo..hi (inclusive) per the documented levels"""
                 if lo == hi:
-                    return str(nums[lo])
-                # loosest operator, rightmost for left-assoc / leftmost for right-assoc
+                    return atoms[lo]
                 cand = range(lo, hi)
                 m = min(lvl[ops[j]] for j in cand)
                 idxs = [j for j in cand if lvl[ops[j]] == m]
                 j = idxs[0] if ops[idxs[0]] == '**' else idxs[-1]
                 return f'({paren(lo, j)} {ops[j]} {paren(j + 1, hi)})'
             full = paren(0, k)
-            ncmp = sum(1 for o in ops if o in ('<', '>', '==', '!=', '<=', '>='))
-            if ncmp > 1:
-                continue
-            src = f'fn a()->str{{ to_str({flat}) }}\nfn b()->str{{ to_str({full}) }}'
-            jobs.append({'id': f'q{i}', 'src': src, 'calls': ['a', 'b']})
+            jobs.append({'id': f'q{i}', 'flat': flat, 'full': full})
             expect.append(full)
-        return jobs, expect
+            seqs.append((atoms, ops))
+        # the Coq climber (extracted table) groups every sequence: as parenthesised text and as nested function calls
+        def term(fn, atoms, ops):
+            return f'{fn} "{atoms[0]}" [' + '; '.join(f'("{o}", "{a}")' for o, a in zip(ops, atoms[1:])) + ']'
+        imports = 'From Coq Require Import List String.\nFrom Xr Require Import Lang.Prec Lang.PrecInst.\nImport ListNotations.\nOpen Scope string_scope.\n'
+        terms = [term('group', a, o) for a, o in seqs] + [term('group_calls', a, o) for a, o in seqs]
+        out = core.coq_eval(terms, imports, os.path.join(workdir or core.BUILD, 'coq_prec'), name='prec', shard_size=100)
+        groups, calls = out[:len(seqs)], out[len(seqs):]
+        final = []
+        for job, g, c in zip(jobs, groups, calls):
+            if g is None or c is None:
+                raise core.CheckError('precedence model evaluation failed for ' + job['flat'])
+            job['model_group'] = g
+            job['src'] = f'fn a()->str{{ to_str({job["flat"]}) }}\nfn b()->str{{ to_str({job["full"]}) }}\nfn c()->str{{ to_str({c}) }}'
+            job['calls'] = ['a', 'b', 'c']
+            final.append({'id': job['id'], 'src': job['src'], 'calls': job['calls']})
+        self._prec_meta = {j['id']: j for j in jobs}
+        return final, expect
 
 
 PROP = C02()
